@@ -18,7 +18,7 @@ from .. import common
 from ..common import sig_key
 
 LEVEL = "fault_enumeration"
-RULE = "Canary differentiations (outcomes under warnings-as-errors evaluated first, nested scalar derivative exposing level confusion, Hessian, container gradient, jvp, sparse/dense mix, checkpoint, deriv-of-grad, FFT Jacobian, rfft/irfft gradients, r_/c_, eigh eigenvectors, the bundled checker on a rule off by 5e-5) together with the ambient process state (np.geterr, print options, warnings filter count, recursion limit, simple module-level constants of every autograd module) are evaluated in a fresh subprocess (reference) and again after every fault / history step in a long-lived process; equality is bitwise. Faults: every k-th user-primitive call of 3 forward programs, every k-th rule application of their backward passes, trace exit via warning->error, and a private exception raised at every LINE event inside autograd/ of 3 victim programs (exhaustive per victim), each escaping to top level or caught by an enclosing differentiation that retries (depth 1-3, both modes); re-entrant use inside rules and forward functions; random histories mixing canaries, failing calls, primitive registrations, deprecated APIs, operator-object reuse, flatten / flatten_func / optimizer steps on trees with empty containers, grad_named on same-named functions, a transient fault in a rule (maker or closure) of a non-first argument followed by a retry with the same closure, an integer-typed traced value in a rule-less position followed by the float case (still loud), user code memoising on traced scalars across differentiations, with registry snapshots and the warnings filter list compared before the harness restores it; the whole G-prim catalogue pulled back / pushed forward twice in one process (catalogue order, then reverse order, then twice under warnings-as-errors) and once more in a fresh interpreter in reverse order, outcomes (bits or exception type) compared per configuration. Non-trivial iff a fault was actually injected (exception observed) or a history step executed; distinct = distinct (fault class, victim, fault index) resp. history signatures."
+RULE = "Long histories: 2**16+5 inner differentiations inside one open outer differentiation (once per worker process) must each still depend on the outer variable. Canary differentiations (outcomes under warnings-as-errors evaluated first, nested scalar derivative exposing level confusion, Hessian, container gradient, jvp, sparse/dense mix, checkpoint, deriv-of-grad, FFT Jacobian, rfft/irfft gradients, r_/c_, eigh eigenvectors, the bundled checker on a rule off by 5e-5) together with the ambient process state (np.geterr, print options, warnings filter count, recursion limit, simple module-level constants of every autograd module) are evaluated in a fresh subprocess (reference) and again after every fault / history step in a long-lived process; equality is bitwise. Faults: every k-th user-primitive call of 3 forward programs, every k-th rule application of their backward passes, trace exit via warning->error, and a private exception raised at every LINE event inside autograd/ of 3 victim programs (exhaustive per victim), each escaping to top level or caught by an enclosing differentiation that retries (depth 1-3, both modes); re-entrant use inside rules and forward functions; random histories mixing canaries, failing calls, primitive registrations, deprecated APIs, operator-object reuse, flatten / flatten_func / optimizer steps on trees with empty containers, grad_named on same-named functions, a transient fault in a rule (maker or closure) of a non-first argument followed by a retry with the same closure, an integer-typed traced value in a rule-less position followed by the float case (still loud), user code memoising on traced scalars across differentiations, with registry snapshots and the warnings filter list compared before the harness restores it; the whole G-prim catalogue pulled back / pushed forward twice in one process (catalogue order, then reverse order, then twice under warnings-as-errors) and once more in a fresh interpreter in reverse order, outcomes (bits or exception type) compared per configuration. Non-trivial iff a fault was actually injected (exception observed) or a history step executed; distinct = distinct (fault class, victim, fault index) resp. history signatures."
 ASSUMPTIONS = ["asynchronous exceptions between bytecodes of one line are not injected (LINE granularity)", "bitwise reproducibility across processes assumes single-threaded BLAS (OMP/OPENBLAS threads = 1, set by the runner)"]
 EXHAUSTIVE = {"C19": "all LINE fault points of each victim; all k for forward-call and rule-application faults"}
 
@@ -718,6 +718,7 @@ def registry_snapshot():
 
 
 # events that themselves register a user primitive: expected growth of (primitive_vjps, primitive_jvps)
+_LONG_RUN = {"done": False}
 REGISTERS = {"maker_fault_then_retry": (3, 0), "fail_check_grads_vjp_only": (1, 0), "fail_rule": (1, 0), "reentrant_rule": (1, 0), "reentrant_forward": (1, 0), "register": (1, 1), "deprecated": (1, 0)}
 
 
@@ -1057,13 +1058,41 @@ def run_histories(res, chk, seed, idx, n, tier):
             assert abs(float(got) - want) < 1e-12, "call %d of a memoised function: gradient %r, expected %r" % (k, got, want)
             f(v)  # a plain evaluation in between stores plain numbers under the same values
 
+    def ev_long_run_of_traces(rng):
+        # round 9: a LONG history. Inside ONE outer differentiation, the first use in a process takes
+        # 2**16 + 5 inner derivatives (every later use 1500 more): whatever counts, numbers or recycles
+        # traces wraps past 8- and 16-bit widths and past CPython's cached small integers while the outer
+        # level is still open, at every alignment; each inner result must still depend on the outer variable
+        from autograd.tracer import isbox
+
+        n_tr = 1500 if _LONG_RUN["done"] else (1 << 16) + 5
+        _LONG_RUN["done"] = True
+        v = float(rng.uniform(0.5, 1.5))
+
+        def outer(x):
+            tot = x * 0.0
+            for i in range(n_tr):
+                r = grad(lambda y: x * y**3)(2.0)
+                if not isbox(r):
+                    raise AssertionError("inner derivative number %d taken inside one outer differentiation no longer depends on the outer variable: %r" % (i, r))
+                if i % 97 == 0:
+                    tot = tot + r
+            return tot
+
+        got = grad(outer)(v)
+        res["counters"]["long_run_traces"] = res["counters"].get("long_run_traces", 0) + n_tr
+        want = 12.0 * len(range(0, n_tr, 97))
+        assert abs(float(got) - want) < 1e-9 * want, "after %d inner traces: %r, expected %r" % (n_tr, got, want)
+        got2 = grad(grad(grad(lambda x: x**4)))(v)
+        assert abs(float(got2) - 24.0 * v) < 1e-12, "after %d more traces: third derivative of x^4 = %r, expected %r" % (n_tr, got2, 24.0 * v)
+
     def ev_ok_work(rng):
         hessian(lambda x: anp.sum(anp.sin(x) * x))(x3)
         make_vjp(lambda x: anp.cumsum(x))(x3)[0](onp.ones(3))
 
     events = {"fail_user": ev_fail_user, "fail_nested": ev_fail_nested, "fail_rule": ev_fail_rule, "fail_norule": ev_fail_norule, "fail_type": ev_fail_type, "fail_nonscalar": ev_fail_nonscalar,
               "fail_warning": ev_fail_warning, "fail_warning_nested": ev_fail_warning_nested, "fail_setitem": ev_fail_setitem, "caught_inside": ev_fail_caught_inside, "reentrant_rule": ev_reentrant_rule,
-              "reentrant_forward": ev_reentrant_forward, "recursion": ev_recursion, "register": ev_register, "deprecated": ev_deprecated, "ok_work": ev_ok_work, "rfft_options": ev_rfft_options, "fail_bad_cotangent": ev_fail_bad_cotangent, "warnings_as_errors": ev_warnings_as_errors, "fail_check_grads_vjp_only": ev_fail_check_grads_vjp_only, "operator_object_reuse": ev_operator_object_reuse, "flatten_empty": ev_flatten_empty, "named_same_qualname": ev_named_same_qualname, "maker_fault_then_retry": ev_maker_fault_then_retry, "integer_use_then_missing_rule": ev_integer_use_then_missing_rule, "memo_keyed_by_traced_scalars": ev_memo_keyed_by_traced_scalars}
+              "reentrant_forward": ev_reentrant_forward, "recursion": ev_recursion, "register": ev_register, "deprecated": ev_deprecated, "ok_work": ev_ok_work, "rfft_options": ev_rfft_options, "fail_bad_cotangent": ev_fail_bad_cotangent, "warnings_as_errors": ev_warnings_as_errors, "fail_check_grads_vjp_only": ev_fail_check_grads_vjp_only, "operator_object_reuse": ev_operator_object_reuse, "flatten_empty": ev_flatten_empty, "named_same_qualname": ev_named_same_qualname, "maker_fault_then_retry": ev_maker_fault_then_retry, "integer_use_then_missing_rule": ev_integer_use_then_missing_rule, "memo_keyed_by_traced_scalars": ev_memo_keyed_by_traced_scalars, "long_run_of_traces": ev_long_run_of_traces}
     names = sorted(events)
     for h in range(idx, total, n):
         rng = onp.random.Generator(onp.random.PCG64([seed, h, 79]))
